@@ -101,6 +101,7 @@ package tree
 // expressions into words; it builds a new array (the array it reads is not written), keeps every inline-expression element,
 // by identity, and every element of the result carries an expression (C17).
 //@ func (cs *CommandStatement) rearrange()
+//@   entry_objects_exist
 //@   requires cs != nil && (forall i int :: {cs.Elements[i]} 0 <= i && i < len(cs.Elements) ==> cs.Elements[i] != nil &&
 //@               (cs.Elements[i].text == "" ==> cs.Elements[i].Expression != nil))
 //@   modifies cs.Elements
